@@ -113,8 +113,11 @@ Processed(w0, a, o, prod) ==
    the trigger found on the channel, slot and tx pointer those of the current_decryption_trigger
    row it wrote *)
 ReqContent(o, w1, k) == Ct(CurOf(w1.kp[k]).slot, CurOf(w1.kp[k]).ptr, o.r.trig.ids)
-ReqRec(w0, k, o, hash) ==
-    [k |-> k, slot |-> w0.slot, e |-> TheEon, q |-> QueueObs(w0, k), row |-> RowOf(w0, k), ids |-> o.r.trig.ids, hash |-> hash]
+(* gk = keyper k's C19 ghost after the request (round 4: AgreeOK2 also compares requests made
+   from the same agreed pointer and the same number of slots counted since) *)
+ReqRec(w0, k, o, hash, gk) ==
+    [k |-> k, slot |-> w0.slot, e |-> TheEon, q |-> QueueObs(w0, k), row |-> RowOf(w0, k), ids |-> o.r.trig.ids, hash |-> hash,
+     gp |-> gk.gp[TheEon], glo |-> gk.glo[TheEon], ghi |-> gk.ghi[TheEon], unk |-> (gk.ga[TheEon] = Null)]
 
 (* observational tags: which paths of the code the step took *)
 TagsOf(g0, g1, w0, a, o, prod, w1) ==
@@ -147,9 +150,10 @@ TagsOf(g0, g1, w0, a, o, prod, w1) ==
 GhostNextE(g, w0, a, o, prod, w1, hash) ==
     LET k == a.n + 1
         g1 == CASE a.a = "tick" /\ o.r.out = "emit" ->
-                     [g EXCEPT !.gh[k] = GhostRequest(@, TheEon),
+                     LET gk == GhostRequestAt(g.gh[k], TheEon, w0.slot) IN
+                     [g EXCEPT !.gh[k] = gk,
                                !.req[k] = @ \cup {ReqContent(o, w1, k)},
-                               !.recs = @ \cup {ReqRec(w0, k, o, hash)}]
+                               !.recs = @ \cup {ReqRec(w0, k, o, hash, gk)}]
                 [] a.a = "dlv" ->
                      LET pr == Processed(w0, a, o, prod)
                          acc == {prod[i].m.c : i \in {j \in DOMAIN prod : prod[j].m.t = "keys" /\ prod[j].an = "accept"}} IN
@@ -185,7 +189,7 @@ StepViol(g0, g1, w0, a, o, prod, w1) ==
     (IF a.a = "dlv" /\ a.m.t = "shares" /\ o.verdict = "accept" /\ ~(a.m.sigs = <<"ok">> /\ a.m.ok) THEN {"X2_ShareGenuine"} ELSE {}) \cup
     (IF a.a = "tick" /\ o.r.out = "emit"
      THEN RequestFailed(g1.gh[k], QueueObs(w0, k), TheEon, w0.slot, o.r.trig.ids) \cup
-          (IF \A r1 \in g1.recs \ g0.recs : \A r2 \in g1.recs : r1.k # r2.k => AgreeOK(r1, r2) THEN {} ELSE {"C19_Agree"}) \cup
+          (IF \A r1 \in g1.recs \ g0.recs : \A r2 \in g1.recs : r1.k # r2.k => AgreeOK2(r1, r2) THEN {} ELSE {"C19_Agree"}) \cup
           (IF CurOf(w1.kp[k]).row /\ CurOf(w1.kp[k]).slot = w0.slot /\ CurOf(w1.kp[k]).ids = o.r.trig.ids THEN {} ELSE {"X1_TriggerStored"})
      ELSE {}) \cup
     UNION {KeysFailed(RowOf(w1, k), c.p, Len(c.ids)) : c \in Processed(w0, a, o, prod)} \cup
